@@ -249,6 +249,35 @@ class SymDD:
         else:
             self.vals[i] = v
 
+    _MISSING = object()
+
+    def pop(self, k, default=_MISSING):
+        i = self._find(k)
+        if i is None:
+            if default is SymDD._MISSING:
+                raise KeyError(k)
+            return default
+        self.keys_.pop(i)
+        return self.vals.pop(i)
+
+    def __delitem__(self, k):
+        self.pop(k)
+
+    def __contains__(self, k):
+        return self._find(k) is not None
+
+    def get(self, k, default=None):
+        i = self._find(k)
+        return default if i is None else self.vals[i]
+
+    def setdefault(self, k, default=None):
+        i = self._find(k)
+        if i is None:
+            self.keys_.append(k)
+            self.vals.append(default)
+            return default
+        return self.vals[i]
+
     def items(self):
         return list(zip(self.keys_, self.vals))
 
